@@ -948,12 +948,12 @@ def replay_t2(case):
 
 
 SUBCHECKS = [
-    Sub("par_exhaustive", sub_par_exhaustive, quick={"max_n": 5}, thorough={"max_n": 5}, shards_quick=4, shards_thorough=8,
+    Sub("par_exhaustive", sub_par_exhaustive, quick={"max_n": 5}, thorough={"max_n": 6}, shards_quick=8, shards_thorough=16,
         exhaustive=True, replay=replay_par),
     Sub("par_sampled", sub_par_sampled, quick={"n": 300}, thorough={"n": 6000}, shards_quick=2, shards_thorough=8, replay=replay_par),
     Sub("par_free", sub_par_free, quick={"n": 150}, thorough={"n": 3000}, shards_quick=2, shards_thorough=8, replay=replay_par),
-    Sub("t1_fanout", sub_t1, quick={"n": 60}, thorough={"n": 1200}, shards_quick=4, shards_thorough=16, replay=replay_t1),
-    Sub("t2_fanout", sub_t2, quick={"n": 60}, thorough={"n": 1200}, shards_quick=4, shards_thorough=16, replay=replay_t2),
+    Sub("t1_fanout", sub_t1, quick={"n": 80}, thorough={"n": 1200}, shards_quick=4, shards_thorough=16, replay=replay_t1),
+    Sub("t2_fanout", sub_t2, quick={"n": 120}, thorough={"n": 1500}, shards_quick=4, shards_thorough=16, replay=replay_t2),
 ]
 
 
